@@ -55,6 +55,7 @@ type reAtom struct {
 	key        string
 	matchEmpty bool
 	value      string // tf.value after Init
+	tfLiteral  bool   // tf.isLiteralRegexp
 	rows       []reRow
 	anchored   bool
 	literal    bool
@@ -97,6 +98,9 @@ func genHistory(r *hx.Rng, big bool) *history {
 		h.vals = append(append([]string{}, h.vals...), valueProfiles[r.Intn(4)]...)
 	}
 	n := 3 + r.Intn(12)
+	if r.Chance(20) {
+		n = 16 + r.Intn(25) // enough series for cost-triggered pruning in the all-AND fast path
+	}
 	if big {
 		n = 70 + r.Intn(30)
 	}
@@ -242,7 +246,8 @@ func hasAnchor(re *syntax.Regexp) bool {
 	return false
 }
 
-func genPred(r *hx.Rng, h *history, depth int, allowRegex bool, res *[]*reAtom) *pnode {
+// orPct: chance of OR at an inner node (0 = all-AND tree, the fast path of the select path)
+func genPred(r *hx.Rng, h *history, depth int, allowRegex bool, res *[]*reAtom, orPct int) *pnode {
 	if depth == 0 || r.Chance(30) {
 		k := h.keys[r.Intn(len(h.keys))]
 		if r.Chance(5) {
@@ -293,13 +298,13 @@ func genPred(r *hx.Rng, h *history, depth int, allowRegex bool, res *[]*reAtom) 
 		}
 	}
 	if r.Chance(12) {
-		return &pnode{kind: '(', l: genPred(r, h, depth-1, allowRegex, res)}
+		return &pnode{kind: '(', l: genPred(r, h, depth-1, allowRegex, res, orPct)}
 	}
 	k := byte('&')
-	if r.Chance(45) {
+	if r.Chance(orPct) {
 		k = '|'
 	}
-	return &pnode{kind: k, l: genPred(r, h, depth-1, allowRegex, res), r: genPred(r, h, depth-1, allowRegex, res)}
+	return &pnode{kind: k, l: genPred(r, h, depth-1, allowRegex, res, orPct), r: genPred(r, h, depth-1, allowRegex, res, orPct)}
 }
 
 func (p *pnode) walk(f func(*pnode)) {
